@@ -74,7 +74,8 @@ def one_case(job):
     ops2 = list(base_ops)
     marks = [False] * len(base_ops)
     injected = []
-    for pos in sorted(rng.sample(positions, min(len(positions), 5)), reverse=True):
+    chosen = positions if story.get("probe") else rng.sample(positions, min(len(positions), 5))
+    for pos in sorted(chosen, reverse=True):
         f = rng.choice(fns)
         pt = f.get("ptypes") or ["int"] * f.get("arity", 0)
         ev = ["eval", f["name"], [arg_for(rng, t) for t in pt]]
@@ -120,7 +121,7 @@ def one_case(job):
 
 def run(ctx):
     quick = ctx.tier == "quick"
-    pool = stories.generated_pool(ctx, "functions", 60 if quick else 1500)
+    pool = stories.probe_pool(ctx, "c16") + stories.generated_pool(ctx, "functions", 60 if quick else 1500)
     jobs = [(s, ctx.seed * 2749 + si * 29 + w, ctx.scratch) for si, s in enumerate(pool) for w in range(1 if quick else 3)]
     ctx.programs = len(pool)
     with ProcessPoolExecutor(max_workers=14) as ex:
